@@ -1,3 +1,4 @@
+import numpy as np
 import scipy as sp
 
 from .linear_solver import LinearSolver, LinearSolverError
@@ -14,11 +15,38 @@ class MINRESSolver(LinearSolver):
         if initial_sol is not None:
             initial_sol = initial_sol()
 
-        result = sp.sparse.linalg.minres(self.mat, rhs, x0=initial_sol)
+        rtol = 1e-5
 
-        (sol, info) = result
+        mat_norm = sp.sparse.linalg.norm(self.mat)
+
+        if initial_sol is None:
+            initial_sol = np.zeros_like(rhs)
+
+        # Workaround for scipy bug: the stopping test of MINRES estimates the
+        # norm of the matrix from quantities which include the norm of the
+        # initial residual, so for residuals much larger than the matrix it
+        # reports success for vectors far from convergence. Solve for the
+        # correction with a right-hand side of the magnitude of the matrix.
+        res = rhs - self.mat @ initial_sol
+        res_norm = np.linalg.norm(res)
+
+        scale = 1.0
+        if res_norm > 0.0 and mat_norm > 0.0 and np.isfinite(mat_norm / res_norm):
+            scale = mat_norm / res_norm
+
+        result = sp.sparse.linalg.minres(self.mat, scale * res, rtol=0.5 * rtol)
+
+        (corr, info) = result
 
         if info != 0:
             raise LinearSolverError("MINRES failed with error code {}".format(info))
+
+        sol = initial_sol + corr / scale
+
+        final_res_norm = np.linalg.norm(rhs - self.mat @ sol)
+        bound = rtol * (mat_norm * np.linalg.norm(sol) + np.linalg.norm(rhs))
+
+        if not final_res_norm <= bound:
+            raise LinearSolverError("MINRES failed to converge")
 
         return sol
